@@ -19,6 +19,7 @@ import (
 	"context"
 	"errors"
 	"fmt"
+	"io"
 	"net/http"
 	"strconv"
 	"strings"
@@ -152,6 +153,12 @@ func runTestCasesForServer(
 		results.failedToStart(testCases, errors.New("server config uses TLS, but server response did not indicate a certificate"))
 		return
 	}
+	// Nothing else is expected on the server's stdout. Keep draining it anyway: if the
+	// server prints more and nobody reads, the copy of its output blocks and its exit
+	// would go unnoticed until that copy is abandoned.
+	go func() {
+		_, _ = io.Copy(io.Discard, serverProcess.stdout)
+	}()
 
 	// Send all test cases to the client.
 	var wg sync.WaitGroup
